@@ -124,7 +124,7 @@ var c07InsertPool = []string{"(", ")", "[", "]", "{", "}", ",", ";", ".", "::", 
 	`"s"`, `""`, `"a*b"`, `"\*"`, `"\n"`, `"\u{1F600}"`}
 
 func runC07(c *vh.Ctx) {
-	c.Res.Rule = "(a) generated policy ASTs (every (parent kind, operand position, child kind) pairing over 36 node kinds, random trees depth<=5, all scope/annotation forms, negative literals, keyword/empty/non-identifier attribute names, strings over every escape class) x {renderMin, renderFull} x {single-space, pseudo-random whitespace+comments} rendered by the Lean model: Go UnmarshalCedar must return the generating AST (vh.EncPolicy JSON); (b) Lean model parser on Go's tokens vs Go's parser (AST incl. position, or both reject) on those texts, on token-level mutations of them and on every rejected form named in the property; (b') the composed MODEL pipeline bytes -> model lexer (C18) -> model parser (op parse-bytes; theorems C07_lex_layout, C07_parse_text_roundtrip_partial, C18_stream_parse_eq_bytes_parse) vs Go's UnmarshalCedar / NewPolicyListFromBytes on the same bytes, scanner-rejected texts included; (c) escape classes of all 1,114,112 code points, EscapeString/Unquote/ParsePattern on generated strings; distinct = distinct text; non-trivial = a condition containing an operator / a mutated or rejected text"
+	c.Res.Rule = "(a) generated policy ASTs (every (parent kind, operand position, child kind) pairing over 36 node kinds, random trees depth<=5, all scope/annotation forms, negative literals, keyword/empty/non-identifier attribute names, strings over every escape class) x {renderMin, renderFull} x {single-space, pseudo-random whitespace+comments} rendered by the Lean model: Go UnmarshalCedar must return the generating AST (vh.EncPolicy JSON); (a') re-layouts of those texts (whitespace/comments in front of the text or of a token, ASCII filler inside a string token) that put every byte boundary of a 2-/3-/4-byte character of a string literal / entity id / annotation value / like-pattern / record key, and the first/middle/last byte of a token of every kind, on offset 1024k-d (d=0..4, two k): same AST and exact Position as the compact text; (b) Lean model parser on Go's tokens vs Go's parser (AST incl. position, or both reject) on those texts, on token-level mutations of them and on every rejected form named in the property; (b') the composed MODEL pipeline bytes -> model lexer (C18) -> model parser (op parse-bytes; theorems C07_lex_layout, C07_parse_text_roundtrip_partial, C18_stream_parse_eq_bytes_parse) vs Go's UnmarshalCedar / NewPolicyListFromBytes on the same bytes, scanner-rejected texts included; (c) escape classes of all 1,114,112 code points, EscapeString/Unquote/ParsePattern on generated strings; distinct = distinct text; non-trivial = a condition containing an operator / a mutated or rejected text"
 	sg := &vh.SynGen{R: c.Rng}
 
 	// ---------- (a) generate ASTs, let the model render them ----------
@@ -188,6 +188,11 @@ func runC07(c *vh.Ctx) {
 			}
 			add("unary-stack", sg.PolicyWith(n))
 		}
+	}
+
+	// policies with 2-, 3-, 4-byte characters in every kind of string token (seeds of the layout check, c07_layout.go)
+	for _, p := range c07LayoutItems(sg) {
+		add("layout-seed", p)
 	}
 
 	renderings := []c07Rendering{{"min", 0}, {"full", 0}, {"min", -1}, {"full", -1}}
@@ -257,6 +262,7 @@ func runC07(c *vh.Ctx) {
 
 	failed := map[int][]string{} // item → failing renderings
 	var validTexts [][]byte
+	var layoutSeeds, layoutTexts [][]byte // renderings whose parse is the generating AST (input of the layout check)
 	for _, j := range jobs {
 		it := items[j.item]
 		text, ok := decodeText(texts[j.line])
@@ -270,13 +276,23 @@ func runC07(c *vh.Ctx) {
 		_, got := goParse(text)
 		if got == nil || encNoPos(got) != it.want {
 			failed[j.item] = append(failed[j.item], fmt.Sprintf("%s/%d: %q", j.r.mode, j.r.seed, text))
-		} else if j.item%30 == 0 && j.r.seed != 0 {
-			c.Sample(map[string]any{"mode": j.r.mode, "text": string(text)})
+		} else {
+			if it.tag == "layout-seed" && j.r.mode == "min" && j.r.seed == 0 {
+				layoutSeeds = append(layoutSeeds, text)
+			} else {
+				layoutTexts = append(layoutTexts, text)
+			}
+			if j.item%30 == 0 && j.r.seed != 0 {
+				c.Sample(map[string]any{"mode": j.r.mode, "text": string(text)})
+			}
 		}
 		if len(validTexts) < c.N(9000, 200000) {
 			validTexts = append(validTexts, text)
 		}
 	}
+
+	// layout invariance across the scanner's buffer boundaries (c07_layout.go)
+	c07RunLayout(c, layoutSeeds, layoutTexts)
 
 	// classification of (a)-failures by repair: render the repaired variants in a second round
 	if len(failed) > 0 {
